@@ -60,7 +60,7 @@ def unsafe_reason(abstract, S, allow_skeleton):
             skeleton = allow_skeleton and ns == gen.HTML_NS and name in ("html", "head", "body") and not t[3]
             if not skeleton and (ns, name) not in S.allowed_elements:
                 if ns in (gen.SVG_NS, gen.MATHML_NS) and any((n2, name) in S.allowed_elements for n2 in (gen.HTML_NS, gen.SVG_NS, gen.MATHML_NS)):
-                    return "element-reparsed-in-another-namespace"
+                    return "element-reparsed-in-another-namespace:%s:%s" % ("svg" if ns == gen.SVG_NS else "math", name)
                 return "element:%s" % name
             for ans, an, v in t[3]:
                 if (ans, an) not in S.allowed_attributes:
@@ -71,6 +71,29 @@ def unsafe_reason(abstract, S, allow_skeleton):
                         return "scheme:%s" % sch
             stack += [(k, depth + 1) for k in t[4]]
     return None
+
+
+def wrapper_lost(orig, name, ns_word, S):
+    """recorded mechanism of C10-ns-confusion, looked for in the tree the sanitizer was given: an ALLOWED element called
+    `name` in another namespace than the one it was re-parsed in, whose nearest allowed ancestor is an element of the
+    re-parse namespace (the allowed foreign root or one of its allowed descendants), with at least one DISALLOWED foreign
+    element in between (the integration point that the sanitizer turned into text, so that nothing switches the
+    re-parse back out of foreign content).  Elements are visited top-down, so the offender's ancestors were all fine."""
+    ns_o = gen.SVG_NS if ns_word == "svg" else gen.MATHML_NS
+    stack = [(orig, None, False)]        # node, namespace of the nearest allowed ancestor, disallowed foreign element in between
+    while stack:
+        t, anc_ns, gap = stack.pop()
+        if t[0] in ("doc", "frag"):
+            stack += [(k, anc_ns, gap) for k in t[1]]
+        elif t[0] == "elem":
+            ns, nm = t[1], t[2]
+            if (ns, nm) in S.allowed_elements:
+                if nm == name and ns != ns_o and anc_ns == ns_o and gap:
+                    return True
+                stack += [(k, ns, False) for k in t[4]]
+            else:
+                stack += [(k, anc_ns, gap or ns in (gen.SVG_NS, gen.MATHML_NS)) for k in t[4]]
+    return False
 
 
 def one(ctx, text, opts, src):
@@ -99,6 +122,12 @@ def one(ctx, text, opts, src):
                 continue
             ctx.evaluations += 1
             why = unsafe_reason(trees.from_etree(r), S, container is None)
+            if why and why.startswith("element-reparsed-in-another-namespace:"):
+                # the recorded class only when the recorded mechanism is observed in the ORIGINAL tree; otherwise the
+                # generic class of a disallowed element
+                _, ns_o, name_o = why.split(":", 2)
+                why = "element-reparsed-in-another-namespace" if wrapper_lost(trees.from_etree(t), name_o, ns_o, S) \
+                    else "element:%s" % name_o
             if why:
                 ctx.fail("unsafe-after-reparse:%s" % why if why == "element-reparsed-in-another-namespace" else
                          "unsafe-after-reparse:%s:%s" % (why, "document" if container is None else "fragment-in-" + container),
